@@ -39,6 +39,32 @@ def erase(fam, t):
     return (tuple(labs), t.scalar)
 
 
+def _scaling_occurrences(t):
+    """(scaling atom, 'abs' | 'signed') for every occurrence of a to_latent / to_observed field in a covariance-factor expression."""
+    out = []
+
+    def walk(x, under_abs):
+        if isinstance(x, (tuple, list)):
+            for y in x:
+                walk(y, under_abs)
+            return
+        if not isinstance(x, T.Term):
+            return
+        if T.is_atom(x):
+            nm = T.atom_name(x)
+            if nm.endswith("to_latent") or nm.endswith("to_observed"):
+                out.append((nm, "abs" if under_abs else "signed"))
+            return
+        ua = under_abs or x.op == "np.abs"
+        for a in x.args:
+            walk(a, ua)
+        for a in x.kwargs.values():
+            walk(a, ua)
+
+    walk(t, False)
+    return set(out)
+
+
 def _run_own(chk, S: Session):
     chk.trust("primitive signatures of adomain.py", "NumPy ordering of kron / repeat / tile / reshape")
     s1 = chk.rule("R-C14-S1", "sibling agreement of the inferred (layout-erased) unit signatures of the three factorisations", floor=20)
@@ -48,6 +74,7 @@ def _run_own(chk, S: Session):
     factory_rules(chk, S, r4)
     nin, nout, nmid = AD.dim("n_in"), AD.dim("n_out"), AD.dim("n_mid")
     sigs: dict = {}
+    sign_sigs: dict = {}
     for fam in c08.FAMS:
         for meth in ("apply_flat", "marginalise", "revert", "preconditioner_apply", "merge"):
             it = S.interp()
@@ -86,6 +113,22 @@ def _run_own(chk, S: Session):
 
             collect(out, "out")
             sigs.setdefault(meth, {})[fam.name] = leaves
+            # sign handling of the diagonal scalings on covariance factors: P C (signed) and |P| C have different Gram matrices as soon as
+            # P has entries of both signs (the Taylor preconditioner of a negative time increment), so siblings must make the same choice
+            signs = {}
+
+            def collect_signs(v, path):
+                if isinstance(v, Rec):
+                    for k, x in v.fields.items():
+                        collect_signs(x, f"{path}.{k}")
+                elif isinstance(v, (tuple, list)):
+                    for i, x in enumerate(v):
+                        collect_signs(x, f"{path}[{i}]")
+                elif isinstance(v, T.Term) and path.endswith("cholesky_flat"):
+                    signs[path] = tuple(sorted(_scaling_occurrences(v)))
+
+            collect_signs(out, "out")
+            sign_sigs.setdefault(meth, {})[fam.name] = signs
     for meth, by_fam in sorted(sigs.items()):
         names = sorted(by_fam)
         if len(names) < 3:
@@ -108,6 +151,23 @@ def _run_own(chk, S: Session):
                     counts.setdefault(repr(v), []).append(n)
                 odd = min(counts.values(), key=len)
                 s1.fail(f"siblings {meth} {k}", f"{odd} deviates: {vals}", None)
+    s5 = chk.rule("R-C14-5", "sibling agreement on the sign of the diagonal scalings applied to covariance factors (signed P or |P| at corresponding positions of the three factorisations)", floor=5)
+    for meth, by_fam in sorted(sign_sigs.items()):
+        names = sorted(by_fam)
+        keys = sorted(set().union(*[set(v) for v in by_fam.values()]))
+        for k in keys:
+            vals = {n: by_fam[n].get(k) for n in names}
+            if len(names) < 3 or any(v is None for v in vals.values()):
+                s5.unknown(f"scaling signs {meth} {k}", f"not derived for every sibling: {vals}")
+                continue
+            if len({v for v in vals.values()}) == 1:
+                s5.ok(f"scaling signs {meth} {k}", f"all three: {vals[names[0]]}")
+            else:
+                counts = {}
+                for n, v in vals.items():
+                    counts.setdefault(v, []).append(n)
+                odd = min(counts.values(), key=len)
+                s5.fail(f"scaling signs {meth} {k}", f"{odd} deviates: {vals} -- for scalings of mixed sign (negative time increments) the siblings return different covariances", None)
     chk.sample({"rule": "R-C14-S1", "revert_signature_dense": {k: repr(v) for k, v in list(sigs.get("revert", {}).get("dense", {}).items())[:4]}})
     composite_rules(chk, S, r2)
     misc_rules(chk, S, r3)
